@@ -21,7 +21,16 @@ pub enum Label {
 pub struct LLine {
     pub text: String,
     pub label: Label,
+    /// Character-level edits applied to this (tag) line so far: see `MARK_*`.
+    pub marks: u8,
 }
+
+/// A character inside the start tag's `<`…`>` span was changed, inserted or removed.
+pub const MARK_SPAN: u8 = 1;
+/// A character of the tag's comment outside the span was changed.
+pub const MARK_COMMENT: u8 = 2;
+/// A character of content that shares the line with the tag comment was changed.
+pub const MARK_CONTENT: u8 = 4;
 
 #[derive(Clone, Debug, Hash, PartialEq, Eq)]
 pub struct LFile {
@@ -86,7 +95,7 @@ pub fn lfile(name: &'static str, fresh: &'static str, spec: &str) -> LFile {
             b'E' => Label::End(label[1..].parse().unwrap()),
             _ => panic!("bad label {label}"),
         };
-        lines.push(LLine { text: text.to_string(), label });
+        lines.push(LLine { text: text.to_string(), label, marks: 0 });
     }
     LFile { name, lines, trailing_newline: true, markdown: name.ends_with(".md"), fresh }
 }
@@ -99,6 +108,8 @@ pub enum Edit {
     /// Replace a line: content/outside lines get fresh text; tag lines get (variant 0) a suffix
     /// inside the comment after the tag, or (variant 1, start tags) a changed attribute.
     Rep { file: usize, idx: usize, variant: u8 },
+    /// A character-level edit of a tag line (C02), see `tag_char_edits`.
+    TagChar { file: usize, idx: usize, kind: u8 },
 }
 
 impl Edit {
@@ -107,6 +118,7 @@ impl Edit {
             Edit::Ins { file, pos, dup } => json!({"ins": [file, pos, dup]}),
             Edit::Del { file, idx } => json!({"del": [file, idx]}),
             Edit::Rep { file, idx, variant } => json!({"rep": [file, idx, variant]}),
+            Edit::TagChar { file, idx, kind } => json!({"tagchar": [file, idx, kind]}),
         }
     }
     pub fn from_json(v: &Value) -> Option<Edit> {
@@ -115,6 +127,9 @@ impl Edit {
         }
         if let Some(a) = v.get("del").and_then(Value::as_array) {
             return Some(Edit::Del { file: a[0].as_u64()? as usize, idx: a[1].as_u64()? as usize });
+        }
+        if let Some(a) = v.get("tagchar").and_then(Value::as_array) {
+            return Some(Edit::TagChar { file: a[0].as_u64()? as usize, idx: a[1].as_u64()? as usize, kind: a[2].as_u64()? as u8 });
         }
         let a = v.get("rep")?.as_array()?;
         Some(Edit::Rep { file: a[0].as_u64()? as usize, idx: a[1].as_u64()? as usize, variant: a[2].as_u64()? as u8 })
@@ -169,6 +184,95 @@ pub fn edits(files: &[LFile]) -> Vec<Edit> {
     v
 }
 
+pub const TAG_CHAR_KINDS: u8 = 10;
+
+/// The replacement character of the `counter`-th edit: it occurs nowhere else in the templates.
+fn fresh_char(counter: usize) -> char {
+    ['~', '^', '|', '¦'][counter % 4]
+}
+
+/// Applies character-level edit `kind` to the tag line `text`; returns the new text and the mark,
+/// or `None` when the kind does not apply to this line.
+///
+/// Start-tag lines: 0 replace the first character of the `name` value; 1 insert ` z="9"` right
+/// before `>`; 2 remove a trailing ` z="1"` attribute; 3 insert ` y="9"` right after `<block`
+/// (all inside the `<`…`>` span); 4 replace the space before `<`; 5 replace the space after `>`;
+/// 6 replace the last character of the note after the tag (all in the comment, outside the span);
+/// 7 replace the first character after the end of the comment on the same line (content).
+/// End-tag lines: 8 replace the space before `</block>`; 9 replace the space after it.
+pub fn tag_char_edit(text: &str, kind: u8, counter: usize) -> Option<(String, u8)> {
+    let c = fresh_char(counter);
+    let replace_at = |at: usize, len: usize, with: &str| format!("{}{}{}", &text[..at], with, &text[at + len..]);
+    if let Some(end) = text.find("</block>") {
+        return match kind {
+            8 => (end > 0 && text.as_bytes()[end - 1] == b' ' && end >= 2 && text.as_bytes()[end - 2] != b' ').then(|| (replace_at(end - 1, 1, &c.to_string()), MARK_COMMENT)),
+            9 => {
+                let after = end + 8;
+                (text[after..].starts_with(" n")).then(|| (replace_at(after, 1, &c.to_string()), MARK_COMMENT))
+            }
+            _ => None,
+        };
+    }
+    let lt = text.find("<block")?;
+    let gt = tag_end(text, lt)?;
+    match kind {
+        0 => {
+            let at = text[lt..gt].find("name=\"")? + lt + 6;
+            (text.as_bytes()[at] != b'"').then(|| {
+                let len = text[at..].chars().next().unwrap().len_utf8();
+                (replace_at(at, len, &c.to_string()), MARK_SPAN)
+            })
+        }
+        1 => Some((replace_at(gt, 0, " z=\"9\""), MARK_SPAN)),
+        2 => text[..gt].ends_with(" z=\"1\"").then(|| (replace_at(gt - 6, 6, ""), MARK_SPAN)),
+        3 => Some((replace_at(lt + 6, 0, " y=\"9\""), MARK_SPAN)),
+        4 => (lt >= 2 && text.as_bytes()[lt - 1] == b' ' && !text[..lt - 1].ends_with(' ')).then(|| (replace_at(lt - 1, 1, &c.to_string()), MARK_COMMENT)),
+        5 => text[gt + 1..].starts_with(" n").then(|| (replace_at(gt + 1, 1, &c.to_string()), MARK_COMMENT)),
+        6 => {
+            let note = text[gt..].find("note")? + gt;
+            Some((replace_at(note + 3, 1, &c.to_string()), MARK_COMMENT))
+        }
+        7 => {
+            let close = ["*/", "-->"].iter().filter_map(|d| text[gt..].find(d).map(|i| i + gt + d.len())).min()?;
+            // Content on the tag's own line: replace the space after the comment by a TAB (still
+            // valid code, and the TAB occurs nowhere else).
+            text[close..].starts_with(' ').then(|| (replace_at(close, 1, "\t"), MARK_CONTENT))
+        }
+        _ => None,
+    }
+}
+
+/// Byte offset of the `>` that ends the start tag beginning at `lt` (quotes are honoured).
+pub fn tag_end(text: &str, lt: usize) -> Option<usize> {
+    let mut quote: Option<char> = None;
+    for (i, c) in text[lt..].char_indices() {
+        match (quote, c) {
+            (None, '"') | (None, '\'') => quote = Some(c),
+            (Some(q), c) if q == c => quote = None,
+            (None, '>') => return Some(lt + i),
+            _ => {}
+        }
+    }
+    None
+}
+
+/// Character-level edits of tag lines applicable to `files`.
+pub fn tag_char_edits(files: &[LFile]) -> Vec<Edit> {
+    let mut v = Vec::new();
+    for (fi, f) in files.iter().enumerate() {
+        for (idx, l) in f.lines.iter().enumerate() {
+            if matches!(l.label, Label::Start(_, true) | Label::End(_)) {
+                for kind in 0..TAG_CHAR_KINDS {
+                    if tag_char_edit(&l.text, kind, 0).is_some_and(|(t, _)| t != l.text) {
+                        v.push(Edit::TagChar { file: fi, idx, kind });
+                    }
+                }
+            }
+        }
+    }
+    v
+}
+
 /// The label of a line inserted before index `pos`.
 fn inserted_label(f: &LFile, pos: usize) -> Label {
     let prev = pos.checked_sub(1).map(|i| &f.lines[i].label);
@@ -204,10 +308,17 @@ pub fn apply(files: &[LFile], edit: &Edit, counter: usize) -> Vec<LFile> {
             } else {
                 f.fresh.replace("{}", &format!("ins{counter}"))
             };
-            f.lines.insert(*pos, LLine { text, label });
+            f.lines.insert(*pos, LLine { text, label, marks: 0 });
         }
         Edit::Del { file, idx } => {
             files[*file].lines.remove(*idx);
+        }
+        Edit::TagChar { file, idx, kind } => {
+            let l = &mut files[*file].lines[*idx];
+            if let Some((text, mark)) = tag_char_edit(&l.text, *kind, counter) {
+                l.text = text;
+                l.marks |= mark;
+            }
         }
         Edit::Rep { file, idx, variant } => {
             let f = &mut files[*file];
